@@ -30,7 +30,7 @@ use std::panic::{catch_unwind, AssertUnwindSafe};
 const CODE: u32 = 0x1000; // code under test, followed by nops (landing pads)
 const CODE_WORDS: usize = 12;
 /// words of the code region for a case of `n` instruction words: the case, then nops (landing pads)
-fn code_words_for(n: usize) -> usize { if n + 2 <= CODE_WORDS { CODE_WORDS } else { n + 8 } }
+fn code_words_for(n: usize) -> usize { std::cmp::max(CODE_WORDS, n + 8) }
 const FAR: u32 = 0x2000; // second region of nops, target of register-indirect transfers
 const FAR_WORDS: usize = 8;
 const DATA: u32 = 0x4000; // data window
